@@ -73,8 +73,8 @@ def guard_holds(fx, rs, fn_suffix, guard, kernel, want):
     return bad == 0, "%d of %d paths reach %s without `%s` == %s" % (bad, reach, kernel, guard, want)
 
 
-R9_CONTROL_BAD = {"bad_add", "bad_scale", "bad_index", "bad_abs"}
-R9_CONTROL_GOOD = {"good_add", "good_scale", "good_index", "good_loop"}
+R9_CONTROL_BAD = {"bad_add", "bad_scale", "bad_index", "bad_abs", "bad_dependent"}
+R9_CONTROL_GOOD = {"good_add", "good_scale", "good_index", "good_loop", "good_dependent", "good_narrow"}
 
 
 def r9(run, fx):
@@ -85,8 +85,8 @@ def r9(run, fx):
     # controls: the engine must flag the three seeded overflows of the fixture crate and stay silent on their guarded twins
     ceng = intervals.analyse(fixture_facts("r9_control"), ("r9_control",))
     flagged = {p.rsplit("::", 1)[-1] for (p, k) in ceng.alarms}
-    run.control(rule, R9_CONTROL_BAD <= flagged, "fixtures/r9_control: bad_add, bad_scale, bad_index, bad_abs must be reported (got %s)" %
-                sorted(flagged))
+    run.control(rule, R9_CONTROL_BAD <= flagged, "fixtures/r9_control: %s must be reported (got %s)" %
+                (", ".join(sorted(R9_CONTROL_BAD)), sorted(flagged)))
     run.check(not (flagged & R9_CONTROL_GOOD), rule, "negative-control", "guarded twins of the control crate are not reported",
               "the engine reports guarded code of the control crate: %s" % sorted(flagged & R9_CONTROL_GOOD))
     res = intervals.results(fx)
